@@ -52,6 +52,7 @@ TNext ==
             [] E.ev = "bdelrange" -> BDelRange(E.lo, E.hi) /\ UNCHANGED bad
             [] E.ev = "bmerge"    -> BMerge(E.k, E.d) /\ UNCHANGED bad
             [] E.ev = "clear"     -> Clear /\ UNCHANGED bad
+            [] E.ev = "maint"     -> Maint /\ UNCHANGED bad
             [] E.ev = "commit"    -> IF E.err = "" THEN Commit /\ UNCHANGED bad ELSE Mismatch
             [] OTHER              -> Mismatch
 
